@@ -1,4 +1,5 @@
 import sys
+# unmarshalTuple into []interface{}: null elements are skipped
 p=sys.argv[1]+'/marshal.go'; s=open(p).read()
 old="""			err := Unmarshal(elem, p, v[i])
 			if err != nil {
